@@ -334,11 +334,11 @@ def plan(tier, seed):
     specs = []
     for v in ("ws2dwcv", "ws2dwcvp"):
         for i in range(3 if q else 6):
-            specs.append({"kind": "nonrobust", "variant": v, "sub": i, "cases": 200 if q else 2500, "budget_s": 110 if q else 1500})
+            specs.append({"kind": "nonrobust", "variant": v, "sub": i, "cases": 200 if q else 8000, "budget_s": 110 if q else 600})
         for i in range(4 if q else 8):
-            specs.append({"kind": "robust", "variant": v, "sub": i, "cases": 150 if q else 2000, "budget_s": 110 if q else 1500})
-    for i in range(2 if q else 4):
-        specs.append({"kind": "accessor", "sub": i, "cases": 24 if q else 150, "budget_s": 110 if q else 1500})
+            specs.append({"kind": "robust", "variant": v, "sub": i, "cases": 150 if q else 6000, "budget_s": 110 if q else 600})
+    for i in range(2 if q else 8):
+        specs.append({"kind": "accessor", "sub": i, "cases": 24 if q else 400, "budget_s": 110 if q else 600})
     return specs
 
 
